@@ -63,7 +63,10 @@ class Shard:
         self.inconclusive: Dict[str, int] = {}
         self.notes: List[str] = []
         self.open_keys = {f["key"] for f in load_known() if f["property"] == prop and f["status"] == "open"}
-        self.deadline = time.time() + float(os.environ.get("JV_SHARD_BUDGET_S", "100000"))
+        # logical budgets decide how much is run; this wall-clock budget only stops a shard early when the code under
+        # test has become pathologically slow (its result is then judged on what was observed, or is inconclusive)
+        self.deadline = time.time() + float(os.environ.get("JV_SHARD_BUDGET_S", "400" if tier == "quick" else "10800"))
+        self.sidecar = None
 
     # -- sizing
     def share(self, quick: int, thorough: int) -> int:
@@ -111,7 +114,15 @@ class Shard:
             return
         self.nviol += 1
         if len(self.violations) < self.MAX_VIOL:
-            self.violations.append({"why": why, "case": case, "unlisted_key": key})
+            v = {"why": why, "case": case, "unlisted_key": key}
+            self.violations.append(v)
+            if self.sidecar:
+                # written at once, so that a violation observed before a worker dies (e.g. killed for memory) is not lost
+                try:
+                    with open(self.sidecar, "a") as f:
+                        f.write(json.dumps(v, default=str) + "\n")
+                except OSError:
+                    pass
 
     def result(self) -> dict:
         return {
@@ -160,8 +171,15 @@ def worker_main(argv=None):
     ap.add_argument("--out", required=True)
     a = ap.parse_args(argv)
     reached = start_anchor_recorder()
+    try:
+        import resource
+        lim = int(float(os.environ.get("JV_WORKER_MEM_GB", "8")) * 2 ** 30)
+        resource.setrlimit(resource.RLIMIT_AS, (lim, lim))      # a runaway regex fails with MemoryError instead of being OOM-killed
+    except Exception:  # noqa: BLE001
+        pass
     mod = importlib.import_module(f"jv.props.{a.prop.lower()}")
     ctx = Shard(a.prop, a.shard, a.nshards, a.seed, a.tier)
+    ctx.sidecar = a.out + ".viol"
     mod.run_shard(ctx)
     res = ctx.result()
     res["anchors"] = sorted(reached)
@@ -226,6 +244,13 @@ def run_check(prop: str, tier: str, seed: int) -> int:
                     with open(log.name) as f:
                         tail = f.read()[-1500:]
                     failed.append((k, f"exit {rc}: {tail}"))
+                    side = out + ".viol"
+                    if os.path.exists(side):
+                        vs = [json.loads(x) for x in open(side).read().split("\n") if x.strip()]
+                        if vs:
+                            results.append({"evaluations": 0, "sigs": [], "strata": {}, "outcomes": {}, "events": {}, "samples": [],
+                                            "violations": vs[:5], "nviol": len(vs), "known": {}, "inconclusive": {},
+                                            "notes": [f"shard {k} died (exit {rc}) after observing {len(vs)} violation(s)"], "anchors": ["(dead shard)"]})
             running = still
     finally:
         shutil.rmtree(tmp, ignore_errors=True)
